@@ -1297,6 +1297,26 @@ def shrink_script(script: list[list], cfg: dict, still_bad: Any) -> tuple[list[l
                 cand[i][1] = 2
                 if still_bad(cand, cfg):
                     cur = cand
+            if ev[0] == 'holdExpired':
+                cand = [list(e) for e in cur]
+                cand[i] = ['tick']
+                if still_bad(cand, cfg):
+                    cur = cand
+    # the adopted-connection way into OPENSENT is the same state as the plain outgoing one
+    for a, b in (([['incoming'], ['start']], [['start'], ['connectOk']]), ([['start'], ['incoming']], [['start'], ['connectOk']])):
+        if cur[: len(a)] == a and 'passive' not in cfg:
+            cand = b + cur[len(a) :]
+            if still_bad(cand, cfg):
+                cur = cand
+    # requests which only set a flag commute with much: put each as early as the failure allows,
+    # so that the canonical form does not depend on where the generator happened to place it
+    for i in range(len(cur)):
+        if cur[i][0] in ('queueRefresh', 'announce', 'teardown', 'reestablish'):
+            for j in range(i):
+                cand = cur[:j] + [cur[i]] + cur[j:i] + cur[i + 1 :]
+                if still_bad(cand, cfg):
+                    cur = cand
+                    break
     return cur, cfg
 
 
@@ -1525,3 +1545,165 @@ def replay_file(path: str, prop: str) -> int:
     spec.close()
     print('holds :', not found)
     return 0 if not found else 1
+
+
+# ---------------------------------------------------------------------------------------------
+# reusable scenarios (for C12 part b and C11 end to end)
+
+
+def split_messages(raw: bytes) -> list[bytes]:
+    out = []
+    i = 0
+    while i + 19 <= len(raw):
+        n = struct.unpack('!H', raw[i + 16 : i + 18])[0]
+        if n < 19:
+            break
+        out.append(raw[i : i + n])
+        i += n
+    return out
+
+
+def run_hold_scenario(hold_time: int, arrivals_ms: list[int], until_ms: int | None = None, stage: str = 'established', peer_hold: int | None = None, routes: int = 0, arrival_kind: str = 'keepalive') -> dict:
+    """Hold / keepalive timers on the real Peer under virtual time.
+
+    A session is established with our hold time `hold_time` and the peer's `peer_hold` (default the
+    same; negotiated = min).  From the moment ESTABLISHED is reached (`stage='established'`; with
+    `stage='openconfirm'` only the peer's OPEN is sent, which is the F18 scenario: then silence in
+    OPENCONFIRM) the remote writes one message of `arrival_kind` at each of `arrivals_ms` (virtual
+    milliseconds after that moment) and is silent otherwise, until `until_ms` (default: last arrival
+    + negotiated hold time + 5 s).
+
+    Returns {'t0': virtual seconds at which the stage was reached, 'negotiated': hold time,
+    'wrote': [(ms after t0, 'KEEPALIVE' | 'NOTIFICATION c s' | ..., fsm state)] for every message
+    ExaBGP wrote after t0, 'closed_ms': ms at which it closed the connection or None,
+    'fsm': final FSM state, 'fsm_changes': [(ms, 'A>B')]}."""
+    ph = hold_time if peer_hold is None else peer_hold
+    rig = SessionRig({'hold': hold_time, 'peer_hold': ph, 'routes': routes})
+    negotiated = min(hold_time, ph)
+    if until_ms is None:
+        until_ms = (max(arrivals_ms) if arrivals_ms else 0) + (negotiated + 5) * 1000
+    changes: list[tuple[float, str]] = []
+    orig_emit = rig.emit
+
+    def emit(item: str) -> None:
+        if item.startswith('fsm '):
+            changes.append((rig.loop.time(), item[4:]))
+        orig_emit(item)
+
+    rig.emit = emit  # type: ignore[method-assign]
+    out: dict = {}
+
+    async def scenario() -> None:
+        rig.task = rig.loop.create_task(rig.peer.run())
+        for ev in [['start'], ['connectOk'], ['recv', 1, 'open']] + ([['recv', 1, 'keepalive']] if stage == 'established' else []):
+            await rig.event(ev)
+        t0 = rig.loop.time()
+        out['t0'] = t0 - rig.t0
+        mark = len(rig.wire)
+        cmark = len(changes)
+        for ms in sorted(arrivals_ms):
+            dt = t0 + ms / 1000.0 - rig.loop.time()
+            if dt > 0:
+                await asyncio.sleep(dt)
+            if rig.remote_open.get(1):
+                try:
+                    rig.remote_socks[1].sendall(rig.remote.bytes_of(arrival_kind))
+                except OSError:
+                    pass
+            await asyncio.sleep(0)
+        dt = t0 + until_ms / 1000.0 - rig.loop.time()
+        if dt > 0:
+            await asyncio.sleep(dt)
+        rig.drain()
+        out['wrote'] = [(round((rig.t0 + t - t0) * 1000, 1), k, st) for t, c, k, st in rig.wire[mark:]]
+        out['closed_ms'] = round((rig.closed_at[1] - t0) * 1000, 1) if 1 in rig.closed_at else None
+        out['fsm'] = rig.peer.fsm.state.name
+        out['fsm_changes'] = [(round((t - t0) * 1000, 1), c) for t, c in changes[cmark:]]
+
+    global CUR
+    if CUR is not None:
+        raise RigError('one rig at a time')
+    CUR = rig
+    asyncio.set_event_loop(rig.loop)
+    try:
+        rig.loop.run_until_complete(scenario())
+    finally:
+        rig._cleanup()
+        CUR = None
+    out['negotiated'] = negotiated
+    return out
+
+
+def run_flap_scenario(routes_text: list[str], cut_after_n_messages: int, ops_while_down: list[list], adj_rib_out: bool = True, max_ticks: int = 400) -> dict:
+    """Session loss and resynchronisation on the real Peer (C11 end to end).
+
+    `routes_text`: configured routes (text grammar, e.g. 'route 10.0.0.0/24 next-hop 192.0.2.1 med 1').
+    The first session is established and its main loop runs one iteration at a time; as soon as
+    the remote has received `cut_after_n_messages` UPDATE / End-of-RIB messages (0 = right after
+    ESTABLISHED) it resets the connection.  `ops_while_down`: [['announce', text] | ['withdraw', text]
+    | ['flush']] applied to the Adj-RIB-Out as the API does, while the session is down.  Then a
+    second session is established and run until nothing is pending.
+
+    Returns {'first': [(kind, hex)], 'second': [(kind, hex)]}: every message the remote received in
+    each session after our OPEN + KEEPALIVE (kind as `classify`: UPDATE, EOR, ...), in order."""
+    rig = SessionRig({'routes': 0, 'hold': 180})
+    n = rig.neighbor
+    n.rib.outgoing.cache = adj_rib_out
+    routes = [n.resolve_self(rig.cfg_obj.parse_route_text(t)[0]) for t in routes_text]
+    n.routes = list(routes)
+    for r in routes:
+        n.rib.outgoing.add_to_rib(r)
+    by_text: dict[str, Any] = dict(zip(routes_text, routes))
+    out: dict = {}
+
+    def data(cid: int) -> list[tuple[str, str]]:
+        msgs = split_messages(rig.rx.get(cid, b''))
+        res = [(classify(m)[0], m.hex()) for m in msgs]
+        return [x for x in res if x[0] not in ('OPEN', 'KEEPALIVE')]
+
+    async def scenario() -> None:
+        rig.task = rig.loop.create_task(rig.peer.run())
+        for ev in [['start'], ['connectOk'], ['recv', 1, 'open'], ['recv', 1, 'keepalive']]:
+            await rig.event(ev)
+        for _ in range(max_ticks):
+            if len(data(1)) >= cut_after_n_messages:
+                break
+            await rig.event(['tick'])
+        await rig.event(['sockError', 1])
+        out['first'] = data(1)
+        for op in ops_while_down:
+            if op[0] == 'announce':
+                if op[1] not in by_text:
+                    by_text[op[1]] = n.resolve_self(rig.cfg_obj.parse_route_text(op[1])[0])
+                n.rib.outgoing.add_to_rib(by_text[op[1]], True)
+            elif op[0] == 'withdraw':
+                if op[1] not in by_text:
+                    by_text[op[1]] = n.resolve_self(rig.cfg_obj.parse_route_text(op[1])[0])
+                n.rib.outgoing.del_from_rib(by_text[op[1]])
+            elif op[0] == 'flush':
+                n.rib.outgoing.resend(False, None)
+            else:
+                raise RigError(f'unknown operation {op}')
+        for ev in [['start'], ['connectOk'], ['recv', 2, 'open'], ['recv', 2, 'keepalive']]:
+            await rig.event(ev)
+        quiet = 0
+        for _ in range(max_ticks):
+            before = len(rig.rx.get(2, b''))
+            await rig.event(['tick'])
+            quiet = quiet + 1 if len(rig.rx.get(2, b'')) == before else 0
+            if quiet >= 3:
+                break
+        out['second'] = data(2)
+        out['fsm'] = rig.peer.fsm.state.name
+
+    global CUR
+    if CUR is not None:
+        raise RigError('one rig at a time')
+    CUR = rig
+    asyncio.set_event_loop(rig.loop)
+    try:
+        rig.loop.run_until_complete(scenario())
+    finally:
+        rig._cleanup()
+        CUR = None
+    return out
